@@ -292,6 +292,14 @@ def check_disabled_observations(w, tag):
 
 def step(w, ev):
     """apply one event to implementation and model; returns violations"""
+    out = _step(w, ev)
+    if ev[0].endswith("_bytes"):
+        # same keys as the text form (the same defect shows in both representations), the description says which
+        out = [(k, d + " [the stored value was given as UTF-8 bytes]") for k, d in out]
+    return out
+
+
+def _step(w, ev):
     out = []
     ctx, spec = w.ctx, w.spec
     s, model = w.stored, w.model
@@ -302,6 +310,12 @@ def step(w, ev):
         sc = sc.replace("_marker_led", "")
     osc = sc.replace("_marker_led", "")  # observations: whether the original is marker-led does not define the class
     name = ev[0]
+    as_bytes = name.endswith("_bytes")
+    if as_bytes:
+        name = name[: -len("_bytes")]
+        sarg = s.encode("utf-8")
+    else:
+        sarg = s
     if name == "reload":
         # the application re-reads its policy at run time: same schemes, the two real ones swapped (so the default
         # scheme may change); anything the context memoised from the old policy must not survive
@@ -333,7 +347,7 @@ def step(w, ev):
             out.extend(check_disabled_observations(w, f"after {how}(schemes={new})"))
         return out
     if name in ("disable", "disable_none"):
-        arg = s if name == "disable" else None
+        arg = sarg if name == "disable" else None
         src = model if name == "disable" else ("none", None, True)
         srcc = sc if name == "disable" else "none"
         rng = env.ScriptedRng([ev[1]])
@@ -348,11 +362,13 @@ def step(w, ev):
             out.append((f"C18|{comp}|disable:{srcc}:not_a_string", f"disable({arg!r}) returned {d!r}"))
             return out
         w.stored = d
-        w.model = model_disable(spec, arg, src)
+        w.model = model_disable(spec, s if name == "disable" else None, src)
         out.extend(check_disabled_observations(w, f"after disable({arg!r}) -> {d!r}"))
         return out
     if name == "enable":
-        r = _call(lambda: ctx.enable(s))
+        r = _call(lambda: ctx.enable(sarg))
+        if as_bytes and r[0] == "ok" and isinstance(r[1], bytes):
+            r = ("ok", r[1].decode("utf-8", "replace"))  # either representation of the same text is fine
         if kind == "normal":
             if r[0] == "exc":
                 out.append((f"C18|{comp}|enable:{sc}:raises:{_exc(r[1])}", f"enable({s!r}) of a normal hash raised {r[1]!r}; it must be returned unchanged"))
@@ -382,7 +398,7 @@ def step(w, ev):
             w.model = classify(spec, got)
         return out
     if name == "is_enabled":
-        r = _call(lambda: ctx.is_enabled(s))
+        r = _call(lambda: ctx.is_enabled(sarg))
         if kind == "disabled":
             if r[0] == "exc":
                 out.append((f"C18|{comp}|is_enabled:{osc}:raises:{_exc(r[1])}", f"is_enabled({s!r}) raised {r[1]!r}"))
@@ -413,7 +429,7 @@ def step(w, ev):
                                 f"{api}({p!r}, None) ({first} call on this context, default scheme {ctx.default_scheme()}) ran the default scheme's verify() "
                                 f"{n} times (dummy_verify() {counts['dummy']} times); exactly one dummy verification is required"))
             return out
-        r = _call(lambda: ctx.verify(p, s) if name == "verify" else ctx.verify_and_update(p, s))
+        r = _call(lambda: ctx.verify(p, sarg) if name == "verify" else ctx.verify_and_update(p, sarg))
         if kind == "disabled":
             want = False if name == "verify" else (False, None)
             api = "verify" if name == "verify" else "verify_and_update"
@@ -448,6 +464,11 @@ def events_for(w, rng_answers):
     if kind != "none":
         evs.append(["enable"])
         evs.append(["is_enabled"])
+        # the same stored value in its other representation (UTF-8 bytes, as read back from a file / database column)
+        evs.append(["disable_bytes", rng_answers[0]])
+        evs.append(["enable_bytes"])
+        evs.append(["is_enabled_bytes"])
+        evs.append(["verify_bytes", "x"])
     for pk in PASSWORDS:
         if kind == "none" and pk == "hash_text":
             continue
@@ -549,7 +570,8 @@ def initial_values(seed):
     out = [("none", None), ("empty", ""), ("bare_bang", "!"), ("bare_star", "*"), ("double_bang", "!!"), ("double_star", "**"),
            ("bang_star", "!*"), ("solaris_locked", "*LK*"), ("netbsd_locked", "*LOCKED*"), ("junk", "junk"),
            ("plain_with_bang", "pa!ss"), ("plain_leading_bang", "!bang"), ("plain_leading_star", "*star"),
-           ("plain_with_star", "x*y")]
+           ("plain_with_star", "x*y"), ("plain_nonascii", "p\u00e4ssw\u00f6rd"), ("disabled_bang:plain_cyrillic", "!\u043f\u0430\u0440\u043e\u043b\u044c"),
+           ("disabled_star:plain_nonascii", "*p\u00e4ssw\u00f6rd\u20ac")]
     hashes = {}
     with env.scripted_rng(FillerRng(seed)):
         for name in HS.usable_names():
